@@ -539,6 +539,27 @@ def peer_job(args: tuple[Any, ...]) -> dict[str, Any]:
 
     _world.DEFAULT_DEBUG[0] = len(args) > 3 and bool(args[3])  # the same sequence with debug logging requested
     recycle = len(args) > 4 and bool(args[4])  # a transport that recycles its receive buffer; frames arrive in 3-byte reads
+    tz = args[5] if len(args) > 5 else None  # the process runs in this time zone (the time answer is seconds since the epoch, whatever the zone)
+    if tz:
+        import os as _os
+        import time as _time
+
+        old_tz = _os.environ.get("TZ")
+        _os.environ["TZ"] = tz
+        _time.tzset()
+        try:
+            out_tz = peer_job(tuple(args[:5]))
+        finally:
+            if old_tz is None:
+                _os.environ.pop("TZ", None)
+            else:
+                _os.environ["TZ"] = old_tz
+            _time.tzset()
+        for v in out_tz["viol"]:
+            v["key"] += f":TZ={tz}"
+            v["clause"] += f" [process time zone {tz}]"
+            v["tz"] = tz
+        return out_tz
     _world.RECYCLE_RX[0] = recycle
     out: dict[str, Any] = {"evals": 1, "viol": []}
     try:
@@ -627,6 +648,7 @@ def run(tier: str, seed: int) -> Result:
     jobs_c: list[tuple[Any, ...]] = [(noise, s, oc) for noise in (False, True) for s in seqs for oc in (False, True)]
     jobs_c += [(noise, s, True, True) for noise in (False, True) for s in seqs if len(s) <= 2]
     jobs_c += [(noise, s, False, False, True) for noise in (False, True) for s in seqs if len(s) <= 2]
+    jobs_c += [(noise, s, True, False, False, tz) for noise in (False, True) for s in seqs if len(s) <= 2 and "TR" in s for tz in ("XYZ5", "ABC-9:30")]
     jobs_b2 = [(3, p, 25) for p in range(25)]
     jobs_c2: list[tuple[bool, bool, tuple[str, ...], bool]] = []
     for noise in (False, True):
@@ -732,7 +754,7 @@ def replay(rp: dict[str, Any]) -> bool:
         print("->", [v["clause"] for v in bad] or "holds")
         return not bad
     if "seq" in d:
-        o = peer_job((d["noise"], tuple(d["seq"]), d["one_chunk"]))
+        o = peer_job((d["noise"], tuple(d["seq"]), d["one_chunk"], False, False, d.get("tz")))
         print("->", o["viol"])
         return not o["viol"]
     if "type" in d:
